@@ -2,7 +2,7 @@
 
 Most of the construction / insertion API exists twice: `f` and `f_with[_construction]_statistics`.  The twins are
 meant to do the same work; the statistics variant additionally records counters.  Rule: the sets of crate
-functions the two call (closures included) are equal after (a) mapping every twin callee to its base name and
+functions the two *reach* (transitively, closures included) are equal after (a) mapping every twin callee to its base name and
 (b) ignoring the statistics bookkeeping functions and the constructors a wrapper delegates to.  A twin that delegates to the other is skipped."""
 
 SUFFIXES = ('_with_construction_statistics', '_and_construction_statistics', '_with_statistics', '_with_stats')
@@ -45,27 +45,48 @@ def pairs(prog):
     return out
 
 
+def _reach(prog, q, memo):
+    """Crate functions (non-closure) reachable from q through calls and closures."""
+    if q in memo:
+        return memo[q]
+    memo[q] = set()
+    out = set()
+    for c in _callees(prog, q):
+        out.add(c)
+        out |= _reach(prog, c, memo)
+    memo[q] = out
+    return out
+
+
 def check(ctx, cfg, prog, rule, scope, floor):
     """scope(base qname) -> bool selects the pairs this property is responsible for."""
     n = 0
+    memo = {}
     for base, twin in pairs(prog):
         if not scope(base):
             continue
         ca, cb = _callees(prog, base), _callees(prog, twin)
         if twin in ca or base in cb:
             continue          # one is implemented through the other
+
         def keep(x):
             # statistics bookkeeping and the next constructor a thin wrapper delegates to are not compared
             return not any(k in x for k in STATS_OK) and 'DelaunayTriangulation<' not in prog.bodies[x].locals[0]
-        na = {_base_name(x) for x in ca if keep(x)}
-        nb = {_base_name(x) for x in cb if keep(x)}
+        ra = {_base_name(x) for x in (ca | set().union(*[_reach(prog, c, memo) for c in ca])) if keep(x)} if ca else set()
+        rb = {_base_name(x) for x in (cb | set().union(*[_reach(prog, c, memo) for c in cb])) if keep(x)} if cb else set()
         n += 1
-        only_a, only_b = sorted(na - nb), sorted(nb - na)
+
+        def wrapper_only(x, other):
+            # a helper that merely regroups calls the other twin also reaches (an extracted private helper)
+            rx = {_base_name(y) for y in _reach(prog, x, memo) if keep(y)} if x in prog.bodies else set()
+            return bool(rx) and rx <= other
+        only_a = sorted(x for x in ra - rb if not wrapper_only(x, rb))
+        only_b = sorted(x for x in rb - ra if not wrapper_only(x, ra))
         ok = not only_a and not only_b
         b = prog.bodies[twin]
         ctx.ob(rule, 'TWINSET|' + base, cfg, ok,
-               'same %d crate callees (statistics bookkeeping aside)' % len(na & nb) if ok else
-               'the twins call different functions: only %s calls %s; only its statistics twin calls %s' % (
-                   base.rsplit('::', 1)[-1], [x.rsplit('::', 1)[-1] for x in only_a], [x.rsplit('::', 1)[-1] for x in only_b]),
+               'the twins reach the same %d crate functions (statistics bookkeeping and extracted wrappers aside)' % len(ra & rb) if ok else
+               'the twins do different work: only %s reaches %s; only its statistics twin reaches %s' % (
+                   base.rsplit('::', 1)[-1], [x.rsplit('::', 1)[-1] for x in only_a][:6], [x.rsplit('::', 1)[-1] for x in only_b][:6]),
                site='%s:%d' % (b.file, b.line))
     ctx.floor('%s: function / statistics-twin pairs' % rule, floor, n, cfg)
